@@ -7,6 +7,7 @@ import (
 	"go/ast"
 	"go/parser"
 	"go/token"
+	"slices"
 	"sort"
 	"strings"
 )
@@ -46,6 +47,8 @@ func dGoType(tok string) string {
 		return "any"
 	case 'f':
 		return "interface{ M() }"
+	case 'o':
+		return "rt.Object"
 	case 'L':
 		return "T" + tok[1:]
 	case 'I':
@@ -62,6 +65,13 @@ func dGoType(tok string) string {
 func (c *dcopyCase) source(pkg string) string {
 	var b strings.Builder
 	fmt.Fprintf(&b, "package %s\n\n", pkg)
+	for _, d := range c.Decls {
+		if d.Under == "s" && slices.Contains(d.Fields, "o") {
+			// a field of the interface type that objects copy themselves through
+			fmt.Fprintf(&b, "import %q\n\n", genMod+"/rt")
+			break
+		}
+	}
 	for i, d := range c.Decls {
 		if d.Enabled {
 			b.WriteString("// +gengo:deepcopy\n")
@@ -110,7 +120,7 @@ func (c *dcopyCase) modelDecls() string {
 			switch f[0] {
 			case 'b':
 				// no statement can be emitted for a blank field: for the model it is not there
-			case 'a', 'f', 'P':
+			case 'a', 'f', 'P', 'o':
 				fs = append(fs, "p")
 			case 'L':
 				var id int
@@ -242,11 +252,25 @@ import (
 	"fmt"
 	"reflect"
 	"strings"
+
+	"example.com/m/rt"
 )
 
 var _ = strings.Join
 
 var theErr = errors.New("e")
+
+// objImpl: what a field of type rt.Object holds — a pointer, nil while the containers are empty (a typed nil pointer in
+// a non-nil interface value); like the generated DeepCopyObject, its own gives a nil interface value for a nil receiver
+type objImpl struct{ N int }
+
+func (o *objImpl) DeepCopyObject() rt.Object {
+	if o == nil {
+		return nil
+	}
+	c := *o
+	return &c
+}
 
 type impl struct{}
 
@@ -287,6 +311,12 @@ func fill(v reflect.Value, c *int) {
 			v.Set(reflect.ValueOf(theErr))
 		case reflect.TypeOf(impl{}).Implements(v.Type()):
 			v.Set(reflect.ValueOf(impl{}))
+		case reflect.TypeOf((*objImpl)(nil)).Implements(v.Type()):
+			if sparse {
+				v.Set(reflect.ValueOf((*objImpl)(nil)))
+			} else {
+				v.Set(reflect.ValueOf(&objImpl{N: *c}))
+			}
 		}
 	}
 }
@@ -788,7 +818,7 @@ func genDcopy(r *Rng) *dcopyCase {
 				case choice == 6 && d.Generic:
 					d.Fields = append(d.Fields, "P")
 				case choice == 7:
-					d.Fields = append(d.Fields, Pick(r, []string{"a", "f"}))
+					d.Fields = append(d.Fields, Pick(r, []string{"a", "f", "o"}))
 				case choice == 1 && r.Chance(20):
 					d.Fields = append(d.Fields, "b")
 				case choice <= 1:
